@@ -120,6 +120,17 @@ func corpusMain(stream string) {
 		for _, nc := range negCases {
 			fmt.Println(negOp(nc, 0))
 		}
+		// one witness per member of the link-stage family (c07-nopos:link-stage) and of the narrow
+		// unpositioned load-stage errors
+		members := map[string]bool{"dup-type": true, "dup-field": true, "dup-field-snake": true, "dup-enum-option": true, "dup-method": true,
+			"entity-dup-event": true, "oneof-map-option": true, "name-with-dot": true, "type-named-like-subpackage": true,
+			"unknown-import": true, "unused-import": true}
+		for _, sc := range semCases {
+			if members[sc.class] {
+				fmt.Println(srcOp("sem-"+sc.class, "foo/v1/a.j5s", sc.text, &j5sgen.Bundle{}))
+			}
+		}
+		fmt.Println(srcOp("sem-file-cycle", "foo/v1/a.j5s", cycleA+"\x00FILE foo/v1/b.j5s\x00"+cycleB, &j5sgen.Bundle{}))
 	case "evolve":
 		// empty enum + appended option ending in UNSPECIFIED (50e59b3)
 		b := onePkg("foo.v1", j5sFile("foo/v1/a.j5s", enumEl("Bar", ""), obj("Foo", prop("a", fld(j5sgen.FString)))))
